@@ -240,7 +240,7 @@ class _StatePointDict(JSONAttrDict):
         except json.JSONDecodeError:
             raise JobsCorruptedError([job_id])
 
-        if calc_id(data) != job_id:
+        if data is None or calc_id(data) != job_id:
             raise JobsCorruptedError([job_id])
 
         with self._suspend_sync:
